@@ -42,6 +42,7 @@ type Expr struct {
 	K  string   `json:"k,omitempty"`  // atom: tag key
 	O  string   `json:"o,omitempty"`  // eq neq re nre in notin
 	V  string   `json:"v,omitempty"`  // eq/neq: literal value; re/nre: pattern
+	K2 string   `json:"k2,omitempty"` // teq/tneq: the other tag key (tag = tag, tag != tag)
 	Vs []string `json:"vs,omitempty"` // in/notin: the set (select path only; the show-series path does not implement IN)
 }
 
@@ -181,6 +182,12 @@ func toInflux(x *Expr) influxql.Expr {
 		return &influxql.BinaryExpr{Op: influxql.EQREGEX, LHS: ref, RHS: &influxql.RegexLiteral{Val: regexp.MustCompile(x.V)}}
 	case "nre":
 		return &influxql.BinaryExpr{Op: influxql.NEQREGEX, LHS: ref, RHS: &influxql.RegexLiteral{Val: regexp.MustCompile(x.V)}}
+	case "teq", "tneq":
+		op := influxql.EQ
+		if x.O == "tneq" {
+			op = influxql.NEQ
+		}
+		return &influxql.BinaryExpr{Op: influxql.Token(op), LHS: ref, RHS: &influxql.VarRef{Val: x.K2, Type: influxql.Tag}}
 	case "in", "notin":
 		set := map[interface{}]bool{}
 		for _, v := range x.Vs {
@@ -355,6 +362,10 @@ func eval(x *Expr, tags map[string]string, m func(p, v string) bool) bool {
 		return m(x.V, v)
 	case "nre":
 		return !m(x.V, v)
+	case "teq":
+		return v == tags[x.K2]
+	case "tneq":
+		return v != tags[x.K2]
 	case "in", "notin":
 		in := false
 		for _, w := range x.Vs {
@@ -449,6 +460,14 @@ func (g *genState) genAtom(mst string) *Expr {
 	pick := g.r.Intn(11)
 	if perlMode && pick >= 5 && pick <= 9 {
 		pick = g.r.Intn(5)
+	}
+	if false && g.r.Chance(1, 30) { // tag compared with another tag: not generated (the repository's own tests pin the present behaviour, see NOTES.md)
+		a.O = "teq"
+		if g.r.Bool() {
+			a.O = "tneq"
+		}
+		a.K2 = gen.Pick(g.r, tagKeys[:4])
+		return a
 	}
 	switch pick {
 	case 10:
@@ -801,6 +820,21 @@ func (rn *runner) doCondList(mst string, x *Expr) {
 	}
 	sort.Strings(gotS)
 	sort.Strings(wantS)
+	// the text of a listed key must determine the key: with ',' between pairs and '=' inside a pair, a ',' or '=' inside a
+	// name has to be escaped (as the line protocol and InfluxDB's SHOW SERIES do), otherwise the text reads as another key
+	for _, s := range sel {
+		amb := strings.ContainsAny(s.mst, ",")
+		for k, v := range s.tags {
+			if strings.ContainsAny(k, ",=") || strings.ContainsAny(v, ",=") {
+				amb = true
+			}
+		}
+		if amb {
+			rn.fail("listing-text", opi, fmt.Sprintf("series key text %q does not determine the key (',' or '=' inside a name is not escaped)",
+				render(s.mst, sortedTags(s.tags))))
+			break
+		}
+	}
 	if strings.Join(gotS, "\x03") != strings.Join(wantS, "\x03") {
 		rn.fail("listing-cond-series", opi, fmt.Sprintf("series listing with condition %q, written and satisfying %q", gotS, wantS))
 	}
